@@ -78,7 +78,32 @@ Theorem C17_snapshot : forall tl its x, backup_run tl = Some (its, x) ->
 Proof. exact run_snapshot. Qed.
 Print Assumptions C17_snapshot.
 
+(* failed write attempts and reads change nothing: adding any number of client events that
+   did not replace the database file (a write whose save failed, list/get/info) to a timeline
+   leaves the whole run - every upload, every wake-up, the exit - unchanged.  So all theorems
+   above quantify over timelines WITH such events, and none of them ever causes an upload. *)
+Theorem C17_unchanged_events_ignored : forall tl extra,
+  (forall e, In e extra -> snd e = false) ->
+  backup_run {| writes := writes tl ++ extra; script := script tl; cancel := cancel tl |} = backup_run tl.
+Proof. exact run_ignores_unchanged. Qed.
+Print Assumptions C17_unchanged_events_ignored.
+
+(* the number of uploads after the first is at most the number of SUCCESSFUL database writes
+   (by clients, or made on the store's side while an upload was handled) plus the number of
+   uploads that were not acknowledged *)
+Theorem C17_upload_count : forall tl its x, backup_run tl = Some (its, x) ->
+  N.of_nat (length (attempts its))
+  <= 1 + N.of_nat (length (ok_writes tl)) + n_races (attempts its) + n_failed (attempts its).
+Proof. exact run_upload_count. Qed.
+Print Assumptions C17_upload_count.
+
 (* the monitors evaluated on the observed log mean what they say *)
+Theorem C17_monitor_bytes_sound : forall l last, mon_bytes last l = true ->
+  forall pre b1 mid b2 post, l = pre ++ (true, b1) :: mid ++ (true, b2) :: post ->
+  (forall e, In e mid -> fst e = false) -> b1 <> b2.
+Proof. exact mon_bytes_spec. Qed.
+Print Assumptions C17_monitor_bytes_sound.
+
 Theorem C17_monitor_rate_sound : forall l, mon_rate l = true ->
   forall pre t1 g1 o1 t2 g2 o2 post, l = pre ++ (t1, g1, o1) :: (t2, g2, o2) :: post -> t1 + period <= t2.
 Proof. exact mon_rate_spec. Qed.
@@ -91,10 +116,10 @@ Proof. exact mon_change_spec. Qed.
 Print Assumptions C17_monitor_change_sound.
 
 (* ---- non-vacuity ---- *)
-(* writes at 36.5 s, 40.5 s and 400.5 s; the second upload fails, the third takes 70 s with a
+(* writes at 36.5 s, 40.5 s and 400.5 s, a write whose save fails at 100.3 s, reads at 200.4 s; the second upload fails, the third takes 70 s with a
    write racing it; cancelled at 1000.7 s *)
 Definition demo : timeline :=
-  {| writes := [36500; 40500; 400500]; script := [U 0 true 0; U 2000 false 0; U 70000 true 1]; cancel := 1000700 |}.
+  {| writes := [(36500, true); (40500, true); (100300, false); (200400, false); (400500, true)]; script := [U 0 true 0; U 2000 false 0; U 70000 true 1]; cancel := 1000700 |}.
 
 Example demo_run :
   match backup_run demo with
@@ -104,9 +129,9 @@ Example demo_run :
 Proof. vm_compute. reflexivity. Qed.
 
 Example demo_accepted :
-  Run_C17.check (Sc [36500; 40500; 400500] [U 0 true 0; U 2000 false 0; U 70000 true 1] 1000700
+  Run_C17.check (Sc [36500; 40500; 400500] [100300] [200400] [U 0 true 0; U 2000 false 0; U 70000 true 1] 1000700
                     [(0, 1, true); (60000, 3, false); (122000, 3, true); (252000, 4, true); (432000, 5, true)]
-                    (Some 1000700) 5 1) = true.
+                    [1; 2; 2; 3; 4] (Some 1000700) 5 1) = true.
 Proof. vm_compute. reflexivity. Qed.
 
 (* an upload every minute although nothing changed: rejected by the change monitor *)
@@ -120,9 +145,20 @@ Example bad_body_rejected : mon_snapshot [36500] 0 [(0, 0, true)] = false /\ mon
 Proof. vm_compute. auto. Qed.
 (* no retry after a failure / a task that outlives its context: rejected by the comparison *)
 Example no_retry_rejected :
-  Run_C17.check (Sc [] [U 0 false 0] 200700 [(0, 1, false)] (Some 200700) 1 0) = false.
+  Run_C17.check (Sc [] [] [] [U 0 false 0] 200700 [(0, 1, false)] [1] (Some 200700) 1 0) = false.
 Proof. vm_compute. reflexivity. Qed.
 Example late_exit_rejected :
-  Run_C17.check (Sc [] [] 200700 [(0, 1, true)] (Some 240000) 1 0) = false
-  /\ Run_C17.check (Sc [] [] 200700 [(0, 1, true)] None 1 0) = false.
+  Run_C17.check (Sc [] [] [] [] 200700 [(0, 1, true)] [1] (Some 240000) 1 0) = false
+  /\ Run_C17.check (Sc [] [] [] [] 200700 [(0, 1, true)] [1] None 1 0) = false.
+Proof. vm_compute. auto. Qed.
+
+(* the generation counter advanced by a save that FAILED (at 100.3 s): the task uploads the
+   unchanged file again at 120 s - same bytes as the upload before: rejected by the byte
+   monitor alone, and by the comparison (the model makes no upload there) *)
+Example unchanged_bytes_rejected : mon_bytes None [(true, 1); (false, 2); (true, 1)] = false.
+Proof. vm_compute. reflexivity. Qed.
+Example failed_save_bumped_generation_rejected :
+  Run_C17.check (Sc [] [100300] [] [] 300700 [(0, 1, true); (120000, 1, true)] [1; 1] (Some 300700) 2 0) = false
+  /\ Run_C17.check (Sc [] [100300] [] [] 300700 [(0, 1, true)] [1] (Some 300700) 2 0) = false
+  /\ Run_C17.check (Sc [] [100300] [] [] 300700 [(0, 1, true)] [1] (Some 300700) 1 0) = true.
 Proof. vm_compute. auto. Qed.
